@@ -634,15 +634,26 @@ func (s *Store) flushTick() {
 }
 
 func (s *Store) commit() (types.Work, error) {
-	primaryWork, err := s.index.Primary.Flush()
+	// Put and Remove add to the primary, then to the index, and then to the
+	// freelist, and may do so while a commit is in progress. Data is written
+	// in that same order, so that index records are written after the primary
+	// records they refer to, and freelist entries after the index records
+	// that stopped referring to their locations. For this to hold for what is
+	// added during the commit, what to write is decided in the reverse order:
+	// first the freelist entries, then the index records, then the primary
+	// records.
+	writeFreelist, abortFreelist := s.freelist.BeginFlush()
+	var primaryWork types.Work
+	indexWork, err := s.index.FlushWith(func() error {
+		var err error
+		primaryWork, err = s.index.Primary.Flush()
+		return err
+	})
 	if err != nil {
+		abortFreelist()
 		return 0, err
 	}
-	indexWork, err := s.index.Flush()
-	if err != nil {
-		return 0, err
-	}
-	flWork, err := s.freelist.Flush()
+	flWork, err := writeFreelist()
 	if err != nil {
 		return 0, err
 	}
